@@ -214,8 +214,14 @@ static std::vector<Ev> random_events(vh::Rng& rng, const Geo& g, int n) {
   std::vector<Ev> evs;
   for (int i = 0; i < n; ++i) {
     Ev e;
-    e.d1 = rng.range(0, g.N - 1); e.d2 = rng.range(0, g.N - 2);
-    if (e.d2 >= e.d1) ++e.d2;
+    e.d1 = rng.range(0, g.N - 1);
+    if (rng.range(0, 3) == 0) { e.d2 = rng.range(0, g.N - 2); if (e.d2 >= e.d1) ++e.d2; }
+    else {
+      // roughly opposite detectors: tangential positions near (and a little beyond) the range of the data
+      const int w = g.numTang / 2 + 2;
+      e.d2 = ((e.d1 + g.N / 2 + rng.range(-w, w)) % g.N + g.N) % g.N;
+      if (e.d2 == e.d1) e.d2 = (e.d1 + g.N / 2) % g.N;
+    }
     e.r1 = rng.range(0, g.R - 1); e.r2 = rng.range(0, g.R - 1);
     e.t = 0;
     if (g.maxT > 0) { const int h = g.maxT / 2 + (rng.range(0, 5) == 0 ? 1 : 0); e.t = rng.range(-h, h); }
@@ -270,6 +276,8 @@ static std::vector<Par> legal_params(const Geo& g, const ProjDataInfo& in) {
           if (ms >= 0 && ms < sc / 2) continue;
           for (int trim : { 0, 1, 2, -2 }) {
             if (in.get_num_tangential_poss() - trim < 1) continue;
+            // the scanner cannot have more tangential positions than this
+            if (in.get_num_tangential_poss() - trim > in.get_scanner_ptr()->get_max_num_non_arccorrected_bins()) continue;
             ps.push_back({ sc, vc, trim, ms, tc });
           }
         }
@@ -296,7 +304,6 @@ static void mode_ssrb(vh::Trace& tr, long runs, int stage, vh::Rng& rng, const s
       chosen.push_back({ 2, 1, 0, -1, 1 });
       chosen.push_back({ 1, 1, 0, in->get_max_segment_num() + 1, 1 });
       chosen.push_back({ 1, 1, in->get_num_tangential_poss(), -1, 1 });
-      if (in->get_max_segment_num() >= 1) chosen.push_back({ 3, 1, 0, 0, 1 });
       if (g.maxT > 0) chosen.push_back({ 1, 1, 0, -1, 0 });
     }
     for (auto& p : chosen) {
